@@ -796,6 +796,9 @@ var bigIntType = reflect.TypeFor[*big.Int]()
 
 // Decode a packet into its corresponding message.
 func decode(packet []byte) (interface{}, error) {
+	if len(packet) == 0 {
+		return nil, parseError(0)
+	}
 	var msg interface{}
 	switch packet[0] {
 	case msgDisconnect:
